@@ -710,7 +710,7 @@ impl Judge<'_> {
                     // needs the history (validation cache): which faults came before matters less than that
                     format!("{}|via-history|{}", a.detail, if last.faults.is_empty() { "honest-step-after-tampering" } else { "tampered-step" })
                 } else if last.faults.len() > 1 {
-                    format!("{}|multi-fault", a.detail)
+                    format!("{}|multi-fault:{}", a.detail, fault_kinds(last.faults.iter().map(|f| f.kind.as_str())))
                 } else if (a.rule == "secure-despite-broken-link" && matches!(a.detail.as_str(), "dnskey" | "own-rrsig:dnskey")) || (a.rule == "secure-rrset-incomplete" && a.detail == "dnskey") {
                     // a DNSKEY RRset got by without a valid signature: the link is the discriminator, not the way it was broken
                     format!("{}|{}", a.detail, last.faults[0].link)
@@ -734,6 +734,15 @@ impl Judge<'_> {
 }
 
 // ---------------------------------------------------------------------------------------------
+
+/// The distinct fault kinds (with their variant) of a fault set that did not shrink to one fault, sorted:
+/// part of the signature so that a combination is attributed to its ingredients.
+pub fn fault_kinds<'a>(kinds: impl Iterator<Item = &'a str>) -> String {
+    let mut v: Vec<&str> = kinds.collect();
+    v.sort_unstable();
+    v.dedup();
+    v.join("+")
+}
 
 // ---------------------------------------------------------------------------------------------
 // second observation point: wire response of the server (Catalog -> ForwardZoneHandler -> Resolver)
@@ -1032,8 +1041,8 @@ fn main() {
     let old_on = only.as_deref().map_or(true, |v| v == "old");
     let rec_on = only.as_deref().map_or(true, |v| v == "rec");
     let cli_on = only.as_deref().map_or(true, |v| v == "cli");
-    let cli_params = cli::CParams { n_queries: if thorough { 12 } else { 8 }, cap_single: if thorough { 60 } else { 24 }, n_hist: if thorough { 6 } else { 4 } };
-    let rec_params = rec::RParams { n_queries: if thorough { 12 } else { 8 }, cap_single: if thorough { 80 } else { 32 }, n_hist: if thorough { 9 } else { 6 } };
+    let cli_params = cli::CParams { n_queries: if thorough { 10 } else { 8 }, cap_single: if thorough { 40 } else { 24 }, n_hist: if thorough { 4 } else { 4 } };
+    let rec_params = rec::RParams { n_queries: if thorough { 10 } else { 8 }, cap_single: if thorough { 60 } else { 32 }, n_hist: if thorough { 6 } else { 6 } };
 
     for hi in 0..n_hier {
         let global_idx = ctx.shard + ctx.nshards * hi;
